@@ -55,6 +55,11 @@ impl<F: FileSystem> FileSystem for Rec<F> {
     }
 }
 
+/// the path as its component sequence (what `PathBuf`'s `Eq`/`Ord` look at): `a/./b`, `a//b` print as `a/b`.
+fn show_path(p: &Path) -> String {
+    enc(&p.components().collect::<PathBuf>().display().to_string())
+}
+
 pub fn err_kind(e: &LoadError) -> String {
     match e {
         LoadError::IO(ioe, _) => format!("IO:{:?}", ioe.kind()),
@@ -78,7 +83,7 @@ fn run_load<F: FileSystem>(root: &str, fs: F) -> (String, String) {
     let delivered: RefCell<Vec<String>> = RefCell::new(Vec::new());
     let r = sx::catch(std::panic::AssertUnwindSafe(|| {
         loader.load(|path, _pctx, entry: &syntax::plain::LedgerEntry| {
-            delivered.borrow_mut().push(format!("({} {})", enc(&path.display().to_string()), tree::entry(entry)));
+            delivered.borrow_mut().push(format!("({} {})", show_path(path), tree::entry(entry)));
             Ok::<(), LoadError>(())
         })
     }));
@@ -93,7 +98,7 @@ fn run_load<F: FileSystem>(root: &str, fs: F) -> (String, String) {
         .iter()
         .map(|(pat, r)| match r {
             Ok(ps) => {
-                let mut v: Vec<String> = ps.iter().map(|p| enc(&p.display().to_string())).collect();
+                let mut v: Vec<String> = ps.iter().map(|p| show_path(p)).collect();
                 v.sort();
                 format!("({} ok {})", enc(pat), v.join(" "))
             }
